@@ -79,6 +79,11 @@ def plan_items(prop, tier, seed, ncases):
         # "every dispatch variant once" sweep: 60 single-thread worlds, in every tier
         for q in range(_lim(60)):
             items.append(("directed", (base % 20000) * 100000 + 90000 + q, tier, prop))
+        if prop in ("C16", "C20"):
+            from . import directed as _d
+
+            for q in range(_lim(len(_d.mutsym_templates()))):
+                items.append(("directed", (base % 20000) * 100000 + 40000 + q, tier, prop))
         if prop == "C20":
             # "same operation from two threads" sweep over the whole catalogue (object + NumPy; Awkward too in thorough)
             from . import directed
@@ -87,6 +92,8 @@ def plan_items(prop, tier, seed, ncases):
                 items.append(("directed", (base % 20000) * 100000 + 60000 + q, tier, prop))
             for q in range(_lim(len(directed.register_templates()))):
                 items.append(("directed", (base % 20000) * 100000 + 70000 + q, tier, prop))
+            for q in range(_lim(len(directed.vrace_templates()))):
+                items.append(("directed", (base % 20000) * 100000 + 50000 + q, tier, prop))
             npair = len(directed.pair_templates())
             for q in range(_lim(npair if tier == "thorough" else (npair * 2) // 3)):
                 items.append(("directed", (base % 20000) * 100000 + 80000 + q, tier, prop))
